@@ -177,7 +177,11 @@ const FLOATS: [f64; 16] = [
     1.5, -1.5, 0.1, 1.1, 65504.0 + 0.5, 5.960464477539063e-8, 3.4028234663852886e38, 1.0e300, -1.0e300, f64::INFINITY, f64::NEG_INFINITY, f64::NAN, 2.5, 1.0e-10, 100000.25,
     0.333251953125,
 ];
-const TEXTS: [&str; 10] = ["", "a", "Hello.", "knows", "Alice", "caf\u{e9}", "\u{1f600} grin", "\u{65e5}\u{672c}\u{8a9e}", "line\nbreak \"q\"", "Z\u{fc}rich \u{df}"];
+// (the last five are NOT in NFC: dCBOR requires the encoder to normalise them)
+const TEXTS: [&str; 15] = [
+    "", "a", "Hello.", "knows", "Alice", "caf\u{e9}", "\u{1f600} grin", "\u{65e5}\u{672c}\u{8a9e}", "line\nbreak \"q\"", "Z\u{fc}rich \u{df}",
+    "Cafe\u{301}", "\u{212b}ngstr\u{f6}m", "\u{1112}\u{1161}\u{11ab}", "o\u{308}\u{323}", "\u{fb01}ne \u{1e9b}\u{323}",
+];
 pub const KNOWN: [u64; 12] = [0, 1, 2, 3, 4, 5, 8, 9, 10, 13, 16, 100];
 
 impl<'a> Gen<'a> {
@@ -235,7 +239,14 @@ impl<'a> Gen<'a> {
                 }
                 Item::Map(es)
             }
-            2 => Item::Tag(*self.rng.pick(&[1u64, 24, 32, 37, 100, 200, 201, 40000, 40001, 40002, 40003, 40012, 65536, 0xffff_ffff_ff]), Box::new(self.item(depth - 1))),
+            2 => {
+                let tag = *self.rng.pick(&[1u64, 24, 32, 37, 100, 200, 201, 40000, 40001, 40002, 40003, 40012, 65536, 0xffff_ffff_ff]);
+                let inner = self.item(depth - 1);
+                // a leaf #6.40000(n) has by construction the same digest as the known value n: keep such
+                // leaves away from the numbers used as known values, or "the same set of assertions" is ambiguous
+                let inner = if tag == 40000 && matches!(inner, Item::UInt(_)) { Item::UInt(7_000_000 + self.rng.below(1000) as u64) } else { inner };
+                Item::Tag(tag, Box::new(inner))
+            }
             6 => {
                 // a leaf that embeds an envelope's own tagged CBOR (and sometimes something envelope-like but malformed)
                 match self.rng.below(4) {
@@ -310,7 +321,7 @@ impl<'a> Gen<'a> {
         let mut n = self.rng.range(1, self.cfg.max_assertions.max(1));
         // now and then a wide node, at and around power-of-two widths
         if self.cfg.wide && self.rng.chance(1, 40) {
-            n = *self.rng.pick(&[7usize, 8, 9, 15, 16, 17, 31, 32, 33, 64]);
+            n = *self.rng.pick(&[7usize, 8, 9, 15, 16, 17, 31, 32, 33, 63, 64, 65, 100, 127, 128, 129, 256, 257]);
             let subject = self.leaf_or_known();
             let asr: Vec<M> = (0..n).map(|i| M::Assertion(Box::new(M::Leaf(Item::UInt(i as u64))), Box::new(self.part(0)))).collect();
             return M::Node(Box::new(subject), asr);
@@ -646,4 +657,89 @@ pub fn elide_via_any_entry_point(e: &Envelope, targets: &[D32], revealing: bool,
         (_, true, false) => e.elide_removing_target(&ds[0]),
         (_, true, true) => e.elide_revealing_target(&ds[0]),
     }
+}
+
+// ---------------------------------------------------------------------------------------------
+// Adversarial models (see adv.rs): drawn now and then instead of a random model
+// ---------------------------------------------------------------------------------------------
+
+fn serial(n: u64) -> M {
+    M::Assertion(Box::new(M::Leaf(Item::Text("serial".into()))), Box::new(M::Leaf(Item::UInt(n))))
+}
+
+pub fn adversarial_models() -> &'static Vec<(String, M)> {
+    static CELL: std::sync::OnceLock<Vec<(String, M)>> = std::sync::OnceLock::new();
+    CELL.get_or_init(|| {
+        let mut v: Vec<(String, M)> = Vec::new();
+        // nodes holding assertions whose digests share their first 1..4 bytes (also together with others)
+        for nb in 1..=4usize {
+            let (a, b) = crate::adv::prefix_collision("serial", nb, (nb as u64) * 1_000_000);
+            v.push((format!("digest-prefix-{}", nb), M::Node(Box::new(M::Leaf(Item::Text("item".into()))), vec![serial(a), serial(b)])));
+            v.push((format!("digest-prefix-{}+others", nb), M::Node(Box::new(M::Leaf(Item::Text("item".into()))), vec![serial(b), serial(7), serial(a), serial(8), serial(9)])));
+        }
+        // an assertion whose digest shares 2 bytes with the subject's digest
+        {
+            let subj = M::Leaf(Item::Text("item".into()));
+            let sd = subj.tree().digest;
+            let n = crate::adv::prefix_match("serial", &sd, 2, 0);
+            v.push(("assertion-digest-prefix-of-subject".into(), M::Node(Box::new(subj), vec![serial(n), serial(1)])));
+        }
+        // byte-string leaves whose whole encoding has a chosen CRC-32 (the checksum field of compress())
+        for (i, crc) in crate::adv::SPECIAL_CRCS.iter().enumerate() {
+            let content = crate::adv::bytes_leaf_with_crc(format!("crc-{:08x}-", crc).as_bytes(), *crc);
+            v.push((format!("crc-{:08x}", crc), M::Leaf(Item::Bytes(content.clone()))));
+            if i < 3 {
+                // the same, long enough to be really deflated
+                let mut tag = format!("crc-{:08x}-", crc).into_bytes();
+                tag.extend(std::iter::repeat(b'z').take(300));
+                v.push((format!("crc-{:08x}-long", crc), M::Leaf(Item::Bytes(crate::adv::bytes_leaf_with_crc(&tag, *crc)))));
+            }
+        }
+        // two different leaves with equal encoded length AND equal CRC-32, as objects of one node
+        {
+            let a = crate::adv::bytes_leaf_with_crc(b"twin-A-", 0x1234_5678);
+            let b = crate::adv::bytes_leaf_with_crc(b"twin-B-", 0x1234_5678);
+            v.push((
+                "equal-length-equal-crc-twins".into(),
+                M::Node(Box::new(M::Leaf(Item::Text("twins".into()))), vec![M::Assertion(Box::new(M::Leaf(Item::UInt(1))), Box::new(M::Leaf(Item::Bytes(a)))), M::Assertion(Box::new(M::Leaf(Item::UInt(2))), Box::new(M::Leaf(Item::Bytes(b))))]),
+            ));
+        }
+        // deep chains (wrap / assertion levels)
+        for depth in [129usize, 130, 200, 300] {
+            let mut m = M::Leaf(Item::Text(format!("core-{}", depth)));
+            for i in 0..depth {
+                m = if i % 2 == 0 { M::Wrapped(Box::new(m)) } else { M::Node(Box::new(m), vec![M::Assertion(Box::new(M::Leaf(Item::Text("level".into()))), Box::new(M::Leaf(Item::UInt(i as u64))))]) };
+            }
+            v.push((format!("deep-chain-{}", depth), m));
+        }
+        v
+    })
+}
+
+/// the model for one case: usually random, now and then one of the adversarial ones
+pub fn model_for_case(rng: &mut Rng, cfg: GenCfg, case: u64) -> M {
+    if rng.chance(1, 24) {
+        let adv = adversarial_models();
+        let (_, m) = &adv[rng.below(adv.len())];
+        // deep chains only where the configuration allows big inputs
+        if m.tree().depth() > 64 && !cfg.big {
+            return serial_node(rng);
+        }
+        return m.clone();
+    }
+    if rng.chance(1, 40) {
+        // special numbers as known values and integers, several per envelope
+        let sp = crate::adv::special_numbers();
+        let k = rng.range(1, 4);
+        let asr: Vec<M> = (0..k).map(|_| M::Assertion(Box::new(M::Known(*rng.pick(&sp))), Box::new(if rng.chance(1, 2) { M::Known(*rng.pick(&sp)) } else { M::Leaf(Item::UInt(*rng.pick(&sp))) }))).collect();
+        return M::Node(Box::new(M::Known(*rng.pick(&sp))), asr);
+    }
+    let mut g = Gen::new(rng, cfg, case);
+    g.top()
+}
+
+fn serial_node(rng: &mut Rng) -> M {
+    let adv = adversarial_models();
+    let (_, m) = &adv[rng.below(8)];
+    m.clone()
 }
